@@ -18,7 +18,43 @@ import (
 //  4. data flows on the new connection.
 func VH_C11_Session() {
 	s := vNewSession(vParam("faults", 0), vBytes("auth", 3))
-	srv1, cli1 := s.connect()
+	// Like gRPC's Serve loop and dialer, Accept and Dial are re-entered as soon
+	// as they returned - i.e. while the first connection is still doing its
+	// Noise handshake (the pairing that changes the rendezvous id) - or only
+	// after the first connection is fully established.
+	eager := vBool("eager_reentry")
+	acc, dia := make(chan vConnResult, 1), make(chan vConnResult, 1)
+	again := func() {
+		go func() { c, err := s.srv.Accept(); acc <- vConnResult{c, err} }()
+		go func() { c, err := s.cli.Dial(s.ctx, "relay"); dia <- vConnResult{c, err} }()
+	}
+	var srv1, cli1 vConnResult
+	if eager {
+		sc, cc := make(chan vConnResult, 1), make(chan vConnResult, 1)
+		go func() {
+			c, err := s.srv.Accept()
+			if err != nil {
+				sc <- vConnResult{nil, err}
+				return
+			}
+			go func() { c2, err2 := s.srv.Accept(); acc <- vConnResult{c2, err2} }()
+			nc, _, err := s.srvNoise.ServerHandshake(c)
+			sc <- vConnResult{nc, err}
+		}()
+		go func() {
+			c, err := s.cli.Dial(s.ctx, "relay")
+			if err != nil {
+				cc <- vConnResult{nil, err}
+				return
+			}
+			go func() { c2, err2 := s.cli.Dial(s.ctx, "relay"); dia <- vConnResult{c2, err2} }()
+			nc, _, err := s.cliNoise.ClientHandshake(s.ctx, "", c)
+			cc <- vConnResult{nc, err}
+		}()
+		srv1, cli1 = <-sc, <-cc
+	} else {
+		srv1, cli1 = s.connect()
+	}
 	vAssert(srv1.err == nil && cli1.err == nil, "first connection failed")
 	if srv1.err != nil || cli1.err != nil {
 		return
@@ -30,9 +66,9 @@ func VH_C11_Session() {
 	sid0 := s.srv.sid
 
 	// second Accept / Dial while the first connection is open
-	acc, dia := make(chan vConnResult, 1), make(chan vConnResult, 1)
-	go func() { c, err := s.srv.Accept(); acc <- vConnResult{c, err} }()
-	go func() { c, err := s.cli.Dial(s.ctx, "relay"); dia <- vConnResult{c, err} }()
+	if !eager {
+		again()
+	}
 	select {
 	case <-acc:
 		vAssert(false, "Accept handed out a second connection while the previous one is still open")
@@ -92,6 +128,5 @@ func VH_C11_Session() {
 	vAssert(err == nil && n == 2 && vBytesEq(buf[:n], msg), "fresh connection does not carry data")
 	cn.Close()
 	sr.conn.Close()
-	s.srv.Close()
-	s.cancel()
+	s.stop()
 }
